@@ -54,7 +54,9 @@ def make_scenarios(rnd, tier):
             acts.append((rnd.choice(["ping", "pong"]), scen.rand_bytes(rnd, n)))
         scs.append(_sc(acts, scen.keys(rnd, len(acts))))
     # close: codes x reason lengths (bytes; the str variant is exercised by the type family)
-    for code in [None, 1000, 1001, 1002, 1003, 1007, 1008, 1009, 1010, 1011, 1012, 1015, 3000, 4999, 0, 65535]:
+    # (every code of the 1000..1015 block -- also the ones that are reserved for local use, 1004/1005/1006/1015: what the application
+    #  asks for is what goes out, or the call is refused -- and the edges of the other blocks)
+    for code in [None, 0, 999, 2999, 3000, 3999, 4000, 4999, 5000, 65535] + list(range(1000, 1017)):
         for rl in [0, 1, 122, 123, 124, 200]:
             reason = scen.rand_text(rnd, rl)
             # after an accepted close everything else is refused: one close per connection, plus a probe send
